@@ -34,10 +34,11 @@ def run_part(v, tier):
         # document closed / the backslash removed (the rest of the prefix must still be what the model says it is)
         t = texts[i]
         expect = p["more"]
-        if p["open"] and p["open"][-1] == "HERE":
-            t += "E\n"
+        closers = {"HERE": "E\n", "HERED": "\tE\n", "HERE2": "E\nF\n", "HEREF": "F\n"}
+        if p["open"] and p["open"][-1] in closers:
+            t += closers[p["open"][-1]]
             expect = len(p["open"]) > 1
-        elif p["lines"] and p["lines"][-1] == "cmdbs":
+        elif p["lines"] and p["lines"][-1] in ("cmdbs", "sqcbs", "dqcbs"):
             t = t[:-3] + "\n"
             expect = bool(p["open"])
         d = tempfile.mkdtemp(prefix="bn-", dir=scratch())
@@ -48,7 +49,7 @@ def run_part(v, tier):
         shutil.rmtree(d, ignore_errors=True)
         if rb["rc"] == 0:
             res = False
-        elif re.search(r"unexpected end of file|unexpected EOF", rb["err"]):
+        elif re.search(r"unexpected end of file|unexpected EOF|unexpected token `EOF'", rb["err"]):
             res = True
         else:
             return i, "invalid"
